@@ -13,7 +13,7 @@ func init() {
 	reg("C38", Meta{
 		Technique:   "partition-invariant dataflow on SSA (per-list membership facts from Exists/Remove/Add, inductive over the membership functions), who-may-write enumeration of list mutations, lockset, must-guard reachability for neighbour and de-duplication guards",
 		Explanation: "C38 (multicast groups), structural clauses: (Z1) inductive partition proof — assuming a peer is in at most one of {connected, kept, known} on entry, at every exit of Group.add / remove / pruneKnown any list the function may have added the peer to is accompanied by established absence (Exists false or Remove) from both other lists; functions that only remove preserve the invariant trivially; (W1) no other function calls Add/AddBatch/Remove on the three lists, and the only reassignments install fresh empty lists; all Adds concern the function's own peer argument; (Lk1) the mutations run with Group.mux held for writing; (G1) connectedPeers.Add happens only behind route.IsNeighbor(peer); (F2) the peer-state handler removes a disconnected peer from the groups returned by getGroupAll, i.e. from every group, not from a narrower per-peer index; (G2) Multicast and onMulticast deliver/forward only behind SetIfNotExist(key)==true with the key built from (origin, id). Not decided: flooding termination over all topologies, the one-minute cache expiry.",
-		Assumptions: []string{"cache.SetIfNotExist is atomic test-and-set", "gcGroup/newGroup installing empty lists cannot create double membership"},
+		Assumptions: []string{"gcGroup/newGroup installing empty lists cannot create double membership"},
 	}, c38)
 }
 
@@ -139,6 +139,7 @@ func c38(r *core.Run) {
 	w := r.W
 	funcs := w.PkgFuncs("pkg/multicast")
 	goLoopCapture(r, "C38.Y1", "pkg/multicast", 3)
+	c38Dedup(r)
 	// W1 + Z1
 	type mut struct {
 		fn   *ssa.Function
